@@ -83,9 +83,20 @@ func (s *Stmt) fieldName(i int) string {
 	}
 	f := s.Fields[i-1]
 	if f.Nm != "" {
-		return f.Nm
+		return quoteName(f.Nm)
 	}
 	return f.E.Text()
+}
+
+// quoteName: a field name that is not a plain lower-case word is written between backquotes.
+func quoteName(nm string) string {
+	for i := 0; i < len(nm); i++ {
+		c := nm[i]
+		if !(c >= 'a' && c <= 'z' || c == '_' || (i > 0 && c >= '0' && c <= '9')) {
+			return "`" + nm + "`"
+		}
+	}
+	return nm
 }
 
 func (s *Stmt) Text() string {
@@ -117,7 +128,7 @@ func (s *Stmt) Text() string {
 		for i, f := range s.Fields {
 			fs[i] = f.E.Text()
 			if f.Nm != "" {
-				fs[i] += " as " + f.Nm
+				fs[i] += " as " + quoteName(f.Nm)
 			}
 		}
 		q += strings.Join(fs, ", ")
@@ -242,7 +253,19 @@ func Surface(q string, v int) string {
 			}
 			w := q[i:j]
 			if v&1 != 0 && surfaceKeywords[w] {
-				w = strings.ToUpper(w)
+				if v&64 != 0 {
+					// letter by letter: which ones are capitals depends on the position in the text (last letter only,
+					// only the a's, alternating ... all occur)
+					b := []byte(w)
+					for k := range b {
+						if (i+k*7+v)%3 == 0 || (k == len(b)-1 && (i+v)%2 == 0) || (b[k] == 'a' && (i+v)%5 < 2) {
+							b[k] -= 'a' - 'A'
+						}
+					}
+					w = string(b)
+				} else {
+					w = strings.ToUpper(w)
+				}
 			}
 			sb.WriteString(w)
 			i = j
